@@ -36,3 +36,59 @@ Theorem C12_handle_stability : forall idna_raw c ops h h' a sl, Sep h -> h_run i
   sp_of h a = Some sl -> sp_of h' a = Some sl /\ (exists s, rd (hs h') sl = Some s /\ s_owner s = Some a).
 Proof. exact handle_stability. Qed.
 Print Assumptions C12_handle_stability.
+
+(* ---------- SetSearchParams on the object graph (the operation as repaired by 44c5d62, and as found: D26) ---------- *)
+
+(* C12_handle_stability quantifies over all operation lists, HAdopt included; the instance for one
+   a.SetSearchParams(b.SearchParams()): every SearchParams handle handed out before - of a, of b, of any URL x -
+   is still that URL's handle, and the object is still owned by it (the repaired code keeps a's own object) *)
+Theorem C12_adopt_handle_stability : forall idna_raw c h a b h' x sl, Sep h ->
+  h_step idna_raw c h (HAdopt a b) = Some h' -> sp_of h x = Some sl ->
+  sp_of h' x = Some sl /\ (exists s, rd (hs h') sl = Some s /\ s_owner s = Some x).
+Proof.
+  intros idna_raw c h a b h' x sl S E P.
+  apply (handle_stability idna_raw c [HAdopt a b] h h' x sl S); [|exact P].
+  cbn [h_run]. rewrite E. reflexivity.
+Qed.
+Print Assumptions C12_adopt_handle_stability.
+
+(* after a.SetSearchParams(b.SearchParams()) URL a and its SearchParams describe the same query: the list is b's,
+   Query is its serialization *)
+Theorem C12_adopt_query_follows : forall idna_raw c h a b h', Sep h -> h_step idna_raw c h (HAdopt a b) = Some h' ->
+  exists v u', abs h b = Some v /\ abs h' a = Some u' /\
+    u_sp u' = Some (snd (ensure_sp c v)) /\ Query u' = sp_string c (snd (ensure_sp c v)) /\ sp_synced c u'.
+Proof.
+  intros idna_raw c h a b h' S E.
+  destruct (adopt_spec idna_raw c h a b h' S E) as (u & v & _ & Ab & Aa & _).
+  exists v, (sp_update c (fst (ensure_sp c u)) (snd (ensure_sp c v))).
+  split; [exact Ab|]. split; [exact Aa|]. split; [apply sp_update_sp|]. split; [apply sp_update_Query|apply sp_update_synced].
+Qed.
+Print Assumptions C12_adopt_query_follows.
+
+(* D26, the code as found: after url0.SetSearchParams(url1.SearchParams()) the query of URL 0 is still "x=1" while
+   its parameter list is [("y","2")] - neither the parse of the query nor serializing to it (the heap is not separated);
+   the repaired operation on the same heap gives query "y=2" with that list *)
+Theorem C12_set_search_params_D26_refuted :
+  Sep h_ab /\ h_adopt_D26 Gen.Options.default_cfg h_ab 0%nat 1%nat = Some h_d26 /\ ~ Sep h_d26 /\
+  q_of h_d26 0%nat = Some (Some [120; 61; 49]) /\ sp_val h_d26 0%nat = Some (Some [([121], [50])]) /\
+  (exists u, abs h_d26 0%nat = Some u /\ ~ sp_synced Gen.Options.default_cfg u) /\
+  h_step idn Gen.Options.default_cfg h_ab (HAdopt 0%nat 1%nat) = Some h_fix /\
+  q_of h_fix 0%nat = Some (Some [121; 61; 50]) /\ sp_val h_fix 0%nat = Some (Some [([121], [50])]).
+Proof.
+  destruct mutant_D26 as (A1 & A2 & A3 & _ & _ & _ & A7 & A8 & _).
+  destruct adopt_repaired_ex as (B1 & _ & _ & _ & _ & _ & B7 & B8 & _).
+  split; [exact A1|]. split; [exact A2|]. split; [exact A3|]. split; [exact A7|]. split; [exact A8|].
+  split; [|split; [exact B1|split; [exact B7|exact B8]]].
+  (* every evaluation below is an equation proved by vm_compute, so that the kernel re-checks it with the VM *)
+  assert (A : option_map (fun u => (u_query u, u_sp u)) (abs h_d26 0%nat) =
+              Some (Some [120; 61; 49], Some [([121], [50])])) by (vm_compute; reflexivity).
+  assert (I : sp_init Gen.Options.default_cfg [120; 61; 49] = [([120], [49])]) by (vm_compute; reflexivity).
+  assert (J : sp_string Gen.Options.default_cfg [([121], [50])] = [121; 61; 50]) by (vm_compute; reflexivity).
+  destruct (abs h_d26 0%nat) as [u|]; [|discriminate A].
+  cbn [option_map] in A. injection A as Eq Eu.
+  exists u. split; [reflexivity|].
+  assert (Q : Query u = [120; 61; 49]) by (unfold Query; rewrite Eq; reflexivity).
+  unfold sp_synced. rewrite Eu, Q, I, J.
+  intros [H|H]; discriminate H.
+Qed.
+Print Assumptions C12_set_search_params_D26_refuted.
